@@ -194,4 +194,55 @@ theorem implRead_out_closed (kd : Kind) (n k : Nat) (t : TState) :
       · simp only []; rw [h.2.2.2.2]; exact ⟨rfl, rfl⟩
       · simp only []; rw [h.2.2.2]; exact ⟨rfl, rfl⟩
 
+theorem finv_reader (s : LSt) (h : finv s) :
+    finv ((readerStep s).getD s) ∧ cprog ((readerStep s).getD s).c = cprog s.c := by
+  rcases s with ⟨r, c, l, cl, av⟩
+  rcases h with ⟨hr, hc, hd⟩
+  simp only at hr hc hd
+  rcases hr with hr | hr <;> subst hr
+  · by_cases hx : (cl || av) = true
+    · simp [readerStep, hx, finv]; exact ⟨hc, hd⟩
+    · simp [readerStep, hx, finv]; exact ⟨hc, hd⟩
+  · simp [readerStep, finv]; exact ⟨hc, hd⟩
+
+theorem finv_closer (s : LSt) (h : finv s) :
+    finv ((closerStep true s).getD s) ∧
+      cprog ((closerStep true s).getD s).c = min 2 (cprog s.c + 1) ∧
+      ((closerStep true s).getD s).r = s.r := by
+  rcases s with ⟨r, c, l, cl, av⟩
+  rcases h with ⟨hr, hc, hd⟩
+  simp only at hr hc hd
+  cases c
+  · simp [closerStep, finv, cprog]; exact hr
+  · exact absurd rfl hc
+  · simp [closerStep, finv, cprog]; exact hr
+  · simp [closerStep, finv, cprog]; exact ⟨hr, hd rfl⟩
+
+theorem force_sched (s : LSt) (h : finv s) (sched : List Bool) :
+    finv (runSched true s sched) ∧
+      cprog (runSched true s sched).c = min 2 (cprog s.c + nCloser sched) ∧
+      (s.r = .done → (runSched true s sched).r = .done) := by
+  induction sched generalizing s with
+  | nil => simp [runSched, nCloser, h]; cases s.c <;> simp [cprog]
+  | cons b rest ih =>
+    cases b with
+    | true =>
+      have hr := finv_reader s h
+      have := ih _ hr.1
+      simp only [runSched, nCloser]
+      refine ⟨this.1, by rw [this.2.1, hr.2], ?_⟩
+      intro hd
+      apply this.2.2
+      rcases s with ⟨r, c, l, cl, av⟩
+      simp only at hd; subst hd
+      simp [readerStep]
+    | false =>
+      have hc := finv_closer s h
+      have := ih _ hc.1
+      simp only [runSched, nCloser]
+      refine ⟨this.1, ?_, ?_⟩
+      · rw [this.2.1, hc.2.1]; omega
+      · intro hd; apply this.2.2; rw [hc.2.2]; exact hd
+
+
 end Scrapli.Pipe
